@@ -163,8 +163,10 @@ package types
 // a substore's Commit saves its next version (ASSUMED of every CommitStore; proved for iavl.Store and
 // transient.Store in their packages in terms of tree.cur / the zero id)
 //@ iface func (s CommitStore) Commit() (id CommitID)
-//@   modifies sub.ver
+//@   modifies sub.ver, sub.idver, sub.idhash
 //@   ensures sub.ver == upd(old(sub.ver), s, old(sub.ver[s]) + 1) && id.Version == sub.ver[s]
+// sub.idver / sub.idhash observe the commit id the substore itself reported (its own version counter and hash)
+//@   ensures sub.idver == upd(old(sub.idver), s, id.Version) && sub.idhash == upd(old(sub.idhash), s, id.Hash)
 //@ iface func (s CommitStore) GetStoreType() (r StoreType)
 //@   ensures true
 
